@@ -509,4 +509,157 @@ theorem excluded_not_emitted (h : Handler) (elemPrefix : String) (active : List 
 example : (({ excluded := [⟨"p", "urn:a"⟩], decls := [⟨"p", "urn:a"⟩, ⟨"q", "urn:a"⟩, ⟨"r", "urn:b"⟩] } : Handler).processExcluded
     "q" []).decls = [⟨"q", "urn:a"⟩, ⟨"r", "urn:b"⟩] := by decide
 
+
+/-! ## namespace aliases; whole instruction trees -/
+
+/-- `NamespacesHandler::processNamespaceAliases`: after it, no namespace declaration that a literal result element
+outputs still carries the stylesheet side of an `xsl:namespace-alias` (provided no alias target is itself aliased),
+and every output declaration is the original one with its URI sent through the alias table. -/
+theorem alias_replaced (h : Handler) (hchain : ∀ a ∈ h.aliases, h.aliasOf a.2 = none) :
+    (∀ n ∈ h.processAliases.decls, h.aliasOf n.uri = none) ∧
+      h.processAliases.decls.map (·.pfx) = h.decls.map (·.pfx) := by
+  constructor
+  · intro n hn
+    simp only [Handler.processAliases, List.mem_map] at hn
+    obtain ⟨m, _, hm⟩ := hn
+    cases ha : h.aliasOf m.uri with
+    | none => simp only [ha] at hm; subst hm; exact ha
+    | some a =>
+      simp only [ha] at hm; subst hm
+      simp only [Handler.aliasOf, Option.map_eq_some_iff] at ha
+      obtain ⟨pr, hfind, hpr⟩ := ha
+      have := hchain pr (List.mem_of_find?_eq_some hfind)
+      rw [hpr] at this
+      exact this
+  · simp only [Handler.processAliases, List.map_map]
+    apply List.map_congr_left
+    intro n _
+    simp only [Function.comp]
+    cases h.aliasOf n.uri <;> rfl
+
+example : (({ decls := [⟨"p", "urn:U"⟩, ⟨"q", "urn:V"⟩], aliases := [("urn:U", "urn:V")] } : Handler).processAliases).decls
+    = [⟨"p", "urn:V"⟩, ⟨"q", "urn:V"⟩] := by decide
+
+
+
+theorem nq_ara {s : St} (n v fc) (h : NodupQ s) : NodupQ (s.addResultAttribute n v fc) :=
+  St.nodup_addResultAttribute s n v fc h
+theorem nq_flush {s : St} (h : NodupQ s) : NodupQ s.flushPending := by
+  unfold St.flushPending; split
+  · simp [NodupQ]
+  · exact h
+
+theorem nq_goAtts (atts : List Att) : ∀ (s : St) (vis : List QN), NodupQ s →
+    NodupQ (St.copyNamespaceAttributes.goAtts s vis atts).1 := by
+  induction atts with
+  | nil => intro s vis h; exact h
+  | cons a as ih =>
+    intro s vis h
+    unfold St.copyNamespaceAttributes.goAtts
+    split
+    · exact ih s vis h
+    · apply ih
+      exact pending_attrs_nodup_qname [.addResultNamespace a] s h
+
+theorem nq_goChain (chain : List (List Att)) : ∀ (s : St) (vis : List QN), NodupQ s →
+    NodupQ (St.copyNamespaceAttributes.goChain s vis chain) := by
+  induction chain with
+  | nil => intro s vis h; exact h
+  | cons a as ih =>
+    intro s vis h
+    unfold St.copyNamespaceAttributes.goChain
+    exact ih _ _ (nq_goAtts a s vis h)
+
+theorem nq_cna {s : St} (chain) (h : NodupQ s) : NodupQ (s.copyNamespaceAttributes chain) :=
+  nq_goChain chain s [] h
+
+theorem nq_clone {s : St} (name uri chain b) (h : NodupQ s) : NodupQ (s.cloneElementStart name uri chain b) := by
+  unfold St.cloneElementStart
+  have h1 : NodupQ (s.startElement name) := pending_attrs_nodup_qname [.startElement name] s h
+  split
+  · exact pending_attrs_nodup_qname [.checkDefaultNamespace name uri] _
+      (nq_cna chain (pending_attrs_nodup_qname [.addAtts (chain.headD [])] _ h1))
+  · exact pending_attrs_nodup_qname [.checkDefaultNamespace name uri] _ h1
+
+theorem nq_cloneTree : (∀ (chain : List (List Att)) (s : St) (t : Src), NodupQ s → NodupQ (cloneTree chain s t)) := by
+  intro chain s t
+  refine cloneTree.induct (motive_1 := fun chain s t => NodupQ s → NodupQ (cloneTree chain s t))
+    (motive_2 := fun chain s ts => NodupQ s → NodupQ (cloneList chain s ts)) ?_ ?_ ?_ chain s t
+  · intro chain s name uri atts kids ih h
+    unfold cloneTree
+    exact pending_attrs_nodup_qname [.endElement name] _ (ih (nq_clone _ _ _ _ h))
+  · intro chain s h; unfold cloneList; exact h
+  · intro chain s k ks ih1 ih2 h
+    unfold cloneList
+    exact ih2 (ih1 h)
+
+
+theorem exec_nodup_both :
+    (∀ (env : Env) (r : Run) (i : Instr), NodupQ r.st → NodupQ (exec env r i).st) ∧
+      ∀ (env : Env) (r : Run) (b : Bool) (is : List Instr), NodupQ r.st → NodupQ (execList env r b is).st := by
+  refine exec.mutual_induct
+    (motive_1 := fun env r i => NodupQ r.st → NodupQ (exec env r i).st)
+    (motive_2 := fun env r b is => NodupQ r.st → NodupQ (execList env r b is).st)
+    ?_ ?_ ?_ ?_ ?_ ?_ ?_ ?_ ?_ ?_ ?_ ?_ ?_ ?_
+  all_goals (try dsimp only)
+  · intro env r h; unfold exec; exact pending_attrs_nodup_qname [.characters] _ h
+  · intro env r name ns value h; unfold exec
+    exact pending_attrs_nodup_qname [.elemAttribute name ns _ value] _ h
+  · intro env r name ns body hnone ih h
+    unfold exec
+    simp only [hnone]
+    exact ih (pending_attrs_nodup_qname [.elemElementStart name ns _ _ _] _ h)
+  · intro env r name ns body n hsome ih h
+    unfold exec
+    simp only [hsome]
+    exact pending_attrs_nodup_qname [.endElement n] _
+      (ih (pending_attrs_nodup_qname [.elemElementStart name ns _ _ _] _ h))
+  · intro env r name nsdecls atts excl body hnone h
+    unfold exec
+    simp only [hnone]; exact h
+  · intro env r name nsdecls atts excl body h1 hsome ih h
+    unfold exec
+    simp only [hsome]
+    exact pending_attrs_nodup_qname [.endElement name] _
+      (ih (pending_attrs_nodup_qname [.lreStart name _ _, .addAtts _] _ h))
+  · intro env r k t chain hk h
+    unfold exec
+    simp only [hk]
+    exact nq_cloneTree _ _ _ h
+  · intro env r k hk h
+    unfold exec
+    simp only [hk]; exact h
+  · intro env r k body name uri atts kids chain hk ih h
+    unfold exec
+    simp only [hk]
+    exact pending_attrs_nodup_qname [.endElement name] _ (ih (nq_cna _ (nq_clone _ _ _ _ h)))
+  · intro env r k body hk h
+    unfold exec
+    simp only [hk]; exact h
+  · intro env r b h; unfold execList; exact h
+  · intro env r name ns value is ih h
+    unfold execList; simp only [if_true]; exact ih h
+  · intro env r b name ns value is hb ih1 ih2 h
+    unfold execList
+    rw [if_neg hb]
+    exact ih2 (ih1 h)
+  · intro env r b i is hne ih1 ih2 h
+    unfold execList
+    split
+    · rename_i heq; cases heq
+    · rename_i heq
+      injection heq with e1 e2
+      exact absurd e1 (hne _ _ _)
+    · rename_i heq
+      injection heq with e1 e2
+      subst e1; subst e2
+      exact ih2 (ih1 h)
+
+/-- **whole stylesheets**: executing any instruction tree (literal elements, xsl:element, xsl:attribute, text,
+copy-of and for-each/copy of source elements, to any depth) from a state whose pending qnames are distinct never
+produces a start tag with two attributes of one qname. -/
+theorem exec_pending_attrs_nodup_qname (env : Env) (r : Run) (b : Bool) (is : List Instr) (h : NodupQ r.st) :
+    NodupQ (execList env r b is).st := exec_nodup_both.2 env r b is h
+
+
 end XalanModel.Props.C14
